@@ -120,8 +120,29 @@ func runC20(r *run) {
 			vals = append(vals, v)
 		}
 	}
+	// the texts are produced in two orders: value-major (both styles of one value in a row) and, for the first values of
+	// the list (boundary values come as v, -v pairs), style-major (the same style for v and then -v in a row): a value's
+	// text does not depend on what was formatted just before it
+	type fcase struct {
+		i    int
+		v    int64
+		frac bool
+	}
+	var cases []fcase
 	for i, v := range vals {
-		for _, frac := range []bool{false, true} {
+		cases = append(cases, fcase{i, v, false}, fcase{i, v, true})
+	}
+	for _, frac := range []bool{false, true} {
+		for i, v := range vals {
+			if i >= 600 {
+				break
+			}
+			cases = append(cases, fcase{i + 3, v, frac})
+		}
+	}
+	for _, fc := range cases {
+		i, v := fc.i, fc.v
+		for _, frac := range []bool{fc.frac} {
 			var text string
 			panicked := ""
 			func() {
